@@ -469,6 +469,30 @@ func c04Run(t *testing.T, c *evid.Collector) {
 		}
 	}
 
+	// ---- keys up to the 1024-byte limit: markers and tokens derived from them are longer than
+	// any key (a V2 token encodes the key), and must still be taken back
+	if evid.Shard() == 0 {
+		st := backends.Must(backends.Mem, backends.Options{})
+		ensureBucket(st, "bk0")
+		ks := []string{strings.Repeat("k", 768) + "a", strings.Repeat("k", 769) + "b", strings.Repeat("l", 1000), strings.Repeat("m", 800) + "/x", strings.Repeat("m", 800) + "/y", strings.Repeat("n", 1024), "z"}
+		for _, k := range ks {
+			if r := c04Store(st, k, c03Body(k[:1])); r.Status != 200 {
+				panic("harness: " + r.String())
+			}
+		}
+		sort.Strings(ks)
+		for _, d := range []string{"", "/"} {
+			for _, mk := range []int{1, 2, 3} {
+				for _, api := range []string{"v1", "v2"} {
+					cs := c04Case{Backend: backends.Mem, Keys: ks, Delim: d, MaxKeys: mk, API: api}
+					ds, pages, want, straddle := c04Check(st, cs)
+					record("walk", cs, ds, pages, len(want), straddle, "long-keys")
+				}
+			}
+		}
+		st.Close()
+	}
+
 	// ---- random larger buckets on mem, with delete markers
 	rapidRun(t, "random", evid.Scale(300, 6000), func(rt *rapid.T) {
 		st := backends.Must(backends.Mem, backends.Options{})
